@@ -1,8 +1,18 @@
 #!/bin/bash
-# usage: tools/try_seed.sh <seed-id> <check-id> [extra args]  -- apply a seeded change to /repo, run a check, undo
+# usage: tools/try_seed.sh <seed-id> <check-id> [extra args]  -- apply a seeded change to /repo, run a check, undo, record the result
 SEED=$1; CHECK=$2; shift; shift
 cd /repo && git apply /verif/seeded/$SEED/patch.diff || { echo "patch failed"; exit 2; }
-cd /verif && /venv/bin/python -m pbmon.check $CHECK "$@" 2>&1 | grep -v "^monitors\|^KNOWN" | cut -c1-400 | head -${LINES_MAX:-12}
-RC=${PIPESTATUS[0]}
+cd /verif && /venv/bin/python -m pbmon.check $CHECK "$@" > /tmp/try_seed.$SEED.$CHECK.txt 2>&1
+RC=$?
 git -C /repo checkout -- . ; rm -f /repo/resulttable
+grep -v "^monitors\|^KNOWN" /tmp/try_seed.$SEED.$CHECK.txt | cut -c1-400 | head -${LINES_MAX:-6}
+SIG=$(grep -m1 "signature=" /tmp/try_seed.$SEED.$CHECK.txt | sed 's/.*signature=\([^ ]*\).*/\1/')
+/venv/bin/python - "$SEED" "$CHECK" "$RC" "$SIG" "$*" <<'PY'
+import json,sys,os
+p='/verif/seeded/results.json'
+d=json.load(open(p)) if os.path.exists(p) else {}
+seed,check,rc,sig,args=sys.argv[1:6]
+d.setdefault(seed,{})[check]={"exit":int(rc),"caught":int(rc)==1,"first_signature":sig,"args":args}
+json.dump(d,open(p,'w'),indent=1,sort_keys=True)
+PY
 echo "seed=$SEED check=$CHECK exit=$RC"
